@@ -688,7 +688,16 @@ func (a *cbAnalysis) run(body *ast.BlockStmt, argsObj types.Object, extraEntry [
 				}
 			}
 		case *ast.RangeStmt:
-			if call, ok := ast.Unparen(x.X).(*ast.CallExpr); ok && x.Value != nil {
+			rx := ast.Unparen(x.X)
+			// keysRaw := keys.AsValueSlice(); for _, k := range keysRaw { … }
+			if id, ok := rx.(*ast.Ident); ok {
+				if o := info.Uses[id]; o != nil {
+					if _, idx, rhs := findDefine(info, body, o); rhs != nil && len(rhs) > idx && countAssigns(info, body, o) == 0 {
+						rx = ast.Unparen(rhs[idx])
+					}
+				}
+			}
+			if call, ok := rx.(*ast.CallExpr); ok && x.Value != nil {
 				switch funcKey(callee(info, call)) {
 				case "cty.Value.AsValueSlice", "cty.Value.AsValueMap":
 					if o := objOf(info, x.Value); o != nil {
